@@ -51,3 +51,23 @@ Proof.
   - destruct H as [H|[H|[]]]; subst; vm_compute; reflexivity.
   - exists (1, [(0%nat, false); (1%nat, false)]). split; [right; left; reflexivity|]. vm_compute. reflexivity.
 Qed.
+
+(* Stronger: the likelihood of an example that is NOT dropped decreases, so the REPORTED log-likelihood of the real
+   LFIProblem decreases (observed: -0.9416 = ln 0.39, then -2.3026 = ln 0.1 from the second iteration on):
+       t(0.3)::b; t(0.3)::c.   0.9::f1.   0.1::f2.   s :- \+b, \+c, f1.   s :- b, f2.        evidence: s
+   Under (0.3, 0.3) the example is mostly explained by "no head of the AD" (0.4 * 0.9 of 0.39); the normalised update
+   moves all mass to the heads (b = 1, c = 0), P(s) becomes 0.1.  The posteriors (1/13, 0) are far from the 1e-6 clamp
+   and the 1e-15 floor.  Only the first iteration can do this: afterwards the heads sum to the available mass. *)
+Theorem C24_normalize_first_step_ll_decrease_refuted :
+  exists p e th, wf_prog p = true /\ wf_params p (length th) = true /\ wf_theta p th = true /\
+    forallb ad_ok p = true /\
+    0 < pevidence (step true p [(1, e)] th) p e /\
+    pevidence (step true p [(1, e)] th) p e < pevidence th p e.
+Proof.
+  exists [Clause [(0%nat, HTun 0); (1%nat, HTun 1)] []; Clause [(2%nat, HFix (9 # 10))] [];
+          Clause [(3%nat, HFix (1 # 10))] [];
+          Clause [(4%nat, HDet)] [(0%nat, false); (1%nat, false); (2%nat, true)];
+          Clause [(4%nat, HDet)] [(0%nat, true); (3%nat, true)]],
+         [(4%nat, true)], [3 # 10; 3 # 10].
+  repeat split; vm_compute; reflexivity.
+Qed.
